@@ -3,12 +3,14 @@ from ..facts import callee_q, succs
 from ..paths import Explorer
 from ..terms import Terms, simplify, has_call, has_field, show
 from ..callgraph import CallGraph
-from .r_steps import (GuardedStep, guard_from_bool_call, guard_block_device, guard_from_bool_field, guard_from_option_field,
+from .r_steps import (GuardedStep, guard_from_bool_call, guard_block_device, origin_block_device, guard_from_bool_field, guard_from_option_field,
                       hash_compare_sites, exit_outcomes_from, OK_OUTCOMES)
 
 SET_LEN = 'tokio::fs::file::File::set_len'
 OPEN = ('tokio::fs::open_options::OpenOptions::open', 'std::fs::OpenOptions::open')
 NEW_OUT = 'bitar::clone_output::CloneOutput::new'
+CMP_CALLS = ('core::cmp::Ord::cmp', 'core::cmp::PartialOrd::partial_cmp', 'core::cmp::PartialOrd::lt', 'core::cmp::PartialOrd::le',
+             'core::cmp::PartialOrd::gt', 'core::cmp::PartialOrd::ge')
 
 
 def clone_functions(facts, cg):
@@ -33,7 +35,7 @@ def run(facts, cg=None):
                 arg = simplify(T.of_operand(b_, t['args'][1]))
                 return has_call(arg, 'Archive::total_source_size')
             return False
-        r = GuardedStep(b, is_resize, guard_block_device(T), bypass_value=True)
+        r = GuardedStep(b, is_resize, guard_block_device(T), bypass_value=True, origin=origin_block_device(T))
         Explorer(b, r).run()
         instances.append({'rule': 'R-RESIZE', 'function': b.q, 'ok_exits': r.ok_exits, 'steps': r.steps_seen})
         if r.steps_seen == 0:
@@ -104,24 +106,41 @@ def run(facts, cg=None):
                         'the scan the re-ordering works from is stale (chunks it wants to move may be overwritten, in-place chunks rewritten)' % loc)
         # ---------------- R-SIZECHECK: on a block device the size comparison precedes anything that may write
         size_cmp = set()
+        is_size = lambda x: has_call(x, 'file_size') or has_call(x, 'AsyncSeekExt::seek') or has_call(x, 'Seek::seek') or \
+            has_call(x, 'Metadata::len') or has_call(x, 'stream_position')
+        is_need = lambda x: has_call(x, 'Archive::total_source_size')
         for bi in b.live:
             for st in b.blocks[bi]['stmts']:
                 if st['k'] == 'assign' and st['rv']['k'] == 'binop' and st['rv']['op'] in ('Lt', 'Le', 'Gt', 'Ge'):
                     ta = simplify(T.of_operand(b, st['rv']['a']))
                     tb = simplify(T.of_operand(b, st['rv']['b']))
-                    is_size = lambda x: has_call(x, 'file_size') or has_call(x, 'AsyncSeekExt::seek') or has_call(x, 'Seek::seek') or \
-                        has_call(x, 'Metadata::len') or has_call(x, 'stream_position')
-                    if (is_size(ta) and has_call(tb, 'Archive::total_source_size')) or \
-                            (is_size(tb) and has_call(ta, 'Archive::total_source_size')):
+                    if (is_size(ta) and is_need(tb)) or (is_size(tb) and is_need(ta)):
                         size_cmp.add(bi)
+            t = b.blocks[bi]['term']
+            # the same comparison spelled as a call: size.cmp(&need), size.lt(&need), ...
+            if t['k'] == 'call' and 'q' in t['callee'] and t['callee']['q'] in CMP_CALLS and len(t['args']) == 2:
+                ta = simplify(T.of_operand(b, t['args'][0]))
+                tb = simplify(T.of_operand(b, t['args'][1]))
+                if (is_size(ta) and is_need(tb)) or (is_size(tb) and is_need(ta)):
+                    size_cmp.add(bi)
         instances.append({'rule': 'R-SIZECHECK', 'function': b.q, 'size_comparisons': len(size_cmp)})
         if not size_cmp:
             finding('R-SIZECHECK', b, 'missing', 'no comparison of the device size with the archive source size')
         else:
             for cbi in size_cmp:
-                sw = b.blocks[cbi]['term']
+                # the branch on the comparison: the switch that ends this block or the first one on the straight line after it
+                cur, sw, hops = cbi, None, 0
+                while hops < 6:
+                    tt = b.blocks[cur]['term']
+                    if tt['k'] == 'switch':
+                        sw = tt
+                        break
+                    nx = [x for x in succs(tt) if not b.blocks[x].get('cleanup')]
+                    if len(nx) != 1:
+                        break
+                    cur, hops = nx[0], hops + 1
                 # the too-small side must leave with an error
-                if sw['k'] == 'switch':
+                if sw is not None:
                     outs = [exit_outcomes_from(b, tgt) for tgt in set(sw['targets']) | {sw['otherwise']}]
                     if not any(o <= {'Err'} for o in outs):
                         finding('R-SIZECHECK', b, 'no-refusal', 'a too small output device does not lead to an error')
@@ -131,7 +150,8 @@ def run(facts, cg=None):
                     if bi in size_cmp and st['k'] == 'assign' and st['rv']['k'] == 'binop' and st['rv']['op'] in ('Lt', 'Le', 'Gt', 'Ge'):
                         return (True, state[1], state[2])
                     return state
-            r = SizeStep(b, lambda b_, bi, t: False, guard_block_device(T), bypass_value=False, also_at=may_write)
+            is_cmp_call = lambda b_, bi, t: bi in size_cmp and 'q' in t['callee'] and t['callee']['q'] in CMP_CALLS
+            r = SizeStep(b, is_cmp_call, guard_block_device(T), bypass_value=False, also_at=may_write, origin=origin_block_device(T))
             Explorer(b, r).run()
             for kind, loc, guard in r.violations:
                 if kind == 'before':
